@@ -53,7 +53,7 @@ func CertsDTLCP(ident string) []dtlcp.Certificate {
 func BuildDTLCP(e EPConfig, reg *Registry) *dtlcp.Config {
 	p := GetPKI()
 	c := &dtlcp.Config{
-		Time:               Now,
+		Time:               func() time.Time { return Now().AddDate(e.TimeShiftYears, 0, 0) },
 		Certificates:       CertsDTLCP(e.Ident),
 		NextProtos:         e.ALPN,
 		ServerName:         e.ServerName,
